@@ -126,6 +126,7 @@
 
 #include "file.h"
 #include "miniz.h"
+#include "scanners.h"
 #include "stack.h"
 #include "textbundle.h"
 #include "token.h"
@@ -295,6 +296,18 @@ void traverse_for_images(token * t, DString * text, mmd_engine * e, long * offse
 
 					memcpy(url, &text->str[t->start + *offset + 1], t->len - 2);
 					url[t->len - 2] = '\0';
+
+					// The url ends where a title or attributes begin
+					if (scan_destination(url)) {
+						url[scan_destination(url)] = '\0';
+					}
+
+					// ... and may be wrapped in angle brackets
+					if ((url[0] == '<') && (url[strlen(url) - 1] == '>')) {
+						url[strlen(url) - 1] = '\0';
+						memmove(url, &url[1], strlen(url));
+					}
+
 					clean = clean_string(url, false, true);
 
 					HASH_FIND_STR(e->asset_hash, clean, a);
